@@ -318,6 +318,11 @@ fn digits_val(d: &Value) -> u32 {
     b.iter().fold(0u32, |acc, x| (acc << 8) | *x as u32)
 }
 
+thread_local! {
+    /// endianness of the archive under test (true = big), for the stateless Endian codec events
+    static CUR_ENDIAN: std::cell::RefCell<bool> = std::cell::RefCell::new(false);
+}
+
 /// Apply one event to the archive; returns (res, cursor position reported: 0 for positional calls).
 fn sm_apply(a: &mut BinArchive, ev: &Value) -> (Value, i64) {
     let op = ev["op"].as_str().unwrap();
@@ -402,6 +407,33 @@ fn sm_apply(a: &mut BinArchive, ev: &Value) -> (Value, i64) {
         "equal_regions" => {
             let b: &BinArchive = a;
             (unit_of(b.assert_equal_regions(b, addr, t, n)), 0)
+        }
+        "endian_encode" | "endian_decode" => {
+            let e = CUR_ENDIAN.with(|c| *c.borrow());
+            let en = if e { Endian::Big } else { Endian::Little };
+            if op == "endian_encode" {
+                let x = digits_val(bs);
+                let out = match (n, ty) {
+                    (2, "u") => en.encode_u16(x as u16),
+                    (2, _) => en.encode_i16(x as u16 as i16),
+                    (4, "u") => en.encode_u32(x),
+                    (4, "i") => en.encode_i32(x as i32),
+                    (4, _) => en.encode_f32(f32::from_bits(x)),
+                    _ => usage("endian_encode width"),
+                };
+                (res_val(bytes_to_json(&out)), 0)
+            } else {
+                let b = json_to_bytes(bs);
+                let r = match (n, ty) {
+                    (2, "u") => en.decode_u16(&b).map(|x| x as u32).ok(),
+                    (2, _) => en.decode_i16(&b).map(|x| x as u16 as u32).ok(),
+                    (4, "u") => en.decode_u32(&b).ok(),
+                    (4, "i") => en.decode_i32(&b).map(|x| x as u32).ok(),
+                    (4, _) => en.decode_f32(&b).map(|x| x.to_bits()).ok(),
+                    _ => usage("endian_decode width"),
+                };
+                (r.map(|x| res_val(digits_be(x, n))).unwrap_or_else(res_err), 0)
+            }
         }
         "s_read_label" => {
             let mut rd = BinArchiveReader::new(a, addr);
@@ -525,6 +557,7 @@ fn sm_replay(cases_path: &str, out_path: &str) {
         n += 1;
         let pre = &c["pre"];
         let e = pre["endian"].as_str().unwrap();
+        CUR_ENDIAN.with(|c| *c.borrow_mut() = e == "be");
         let built = catch(|| -> Result<BinArchive, String> {
             let a = build(pre)?;
             let p = sm_project(&a, e);
